@@ -290,6 +290,22 @@ Theorem C01_continue_only_after_accepted_request :
 Proof. exact continue_only_after_accepted_request. Qed.
 Print Assumptions C01_continue_only_after_accepted_request.
 
+(* Extra CRs before a line terminator.  Only one CR belongs to the terminator, so a header
+   line ending in CR CR LF keeps a CR, and a line of CRs only stays non-empty; both are
+   malformed wherever they occur in the block (Content-Length / Transfer-Encoding / Host
+   included): the block does not parse, hence (C01_reject_unparsable_head) 400 and nothing
+   behind it is dispatched. *)
+Theorem C01_reject_extra_cr_before_line_terminator :
+  (forall s, strip1cr (s ++ [CR; CR]) = s ++ [CR]) /\
+  (forall st name u, token_ok name = true -> parse_line st (name ++ COLON :: u ++ [CR]) = None) /\
+  (forall st k, parse_line st (repeat CR (S k)) = None) /\
+  (forall a l b, (forall st, parse_line st l = None) -> forall st, parse_lines st (a ++ l :: b) = None).
+Proof.
+  split; [exact strip1cr_two_cr|]. split; [exact parse_line_trailing_cr|].
+  split; [exact parse_line_cr_only|exact parse_lines_bad_line].
+Qed.
+Print Assumptions C01_reject_extra_cr_before_line_terminator.
+
 (* Tie to the source text: the constants, comparison operators and accumulation forms that
    translators/c01_src.py extracts from tornado/http1connection.py on every run (fail-closed)
    are exactly the ones the model was written against. *)
